@@ -201,6 +201,42 @@ static int do_enqprio(int P, int pc, int leftover) {
     return 0;
 }
 
+// enqafter A R kind: fire-and-forget enqueue into an arena that has been USED before (its demand bookkeeping went through "out of work"): arena(A, R);
+// per round: (kind 0) a thread spawns inside the arena and waits there ~idle ms with nothing to do (a deferred task_handle keeps the group open), (kind 1) runs a
+// parallel_for there and leaves, (kind 2) enqueues and waits for it; then, from outside, enqueue with NOBODY joining the arena: the task must run exactly once within 6 s.
+// output: NOTRUN n TWICE m
+static int do_enqafter(int A, int R, int kind) {
+    Watchdog wd(120.0); Out o; wd.arm(&o);
+    long notrun = 0, twice = 0;
+    tbb::task_arena arena(A, R);
+    for (int round = 0; round < 3; ++round) {
+        if (kind == 0) {
+            arena.execute([&] {
+                tbb::task_group tg; std::atomic<int> ran{0};
+                tbb::task_handle pending = tg.defer([] {});
+                tg.run([&] { ran++; });
+                std::thread helper([&pending] { std::this_thread::sleep_for(std::chrono::milliseconds(250)); pending = tbb::task_handle(); });
+                tg.wait(); helper.join();
+            });
+        } else if (kind == 1) {
+            arena.execute([&] { tbb::parallel_for(0, 500, [](int) { for (volatile int k = 0; k < 500; ++k) {} }); });
+            std::this_thread::sleep_for(std::chrono::milliseconds(100));
+        } else {
+            std::atomic<int> r0{0}; arena.enqueue([&] { r0 = 1; }); for (int k = 0; k < 60000 && !r0.load(); ++k) std::this_thread::sleep_for(std::chrono::microseconds(100));
+            std::this_thread::sleep_for(std::chrono::milliseconds(100));
+        }
+        std::atomic<int> runs{0};
+        arena.enqueue([&] { runs++; });
+        for (int k = 0; k < 60000 && !runs.load(); ++k) std::this_thread::sleep_for(std::chrono::microseconds(100));
+        std::this_thread::sleep_for(std::chrono::milliseconds(20));
+        if (runs.load() == 0) { notrun++; std::printf("NOTRUN %ld TWICE %ld\n", notrun, twice); std::fflush(stdout); std::_Exit(0); }   // the arena still holds the task: leave at once
+        if (runs.load() > 1) twice++;
+    }
+    wd.disarm();
+    std::printf("NOTRUN %ld TWICE %ld\n", notrun, twice);
+    return 0;
+}
+
 // blocked producers of a full concurrent_bounded_queue, some of them aborted (their tickets become holes), later producers waiting
 // behind the holes: every pop that frees a slot must wake the producer waiting for it
 static int do_bq(int cap, int nA, int nB, unsigned seed) {
@@ -230,6 +266,7 @@ int main(int argc, char** argv) {
     if (mode == "seq1") return do_seq1();
     if (mode == "mt") return do_mt(atoi(argv[2]), (unsigned)atoi(argv[3]), atoi(argv[4]));
     if (mode == "enq") return do_enq(atoi(argv[2]), atoi(argv[3]));
+    if (mode == "enqafter") return do_enqafter(atoi(argv[2]), atoi(argv[3]), atoi(argv[4]));
     if (mode == "enqprio") return do_enqprio(atoi(argv[2]), atoi(argv[3]), atoi(argv[4]));
     if (mode == "bq") return do_bq(atoi(argv[2]), atoi(argv[3]), atoi(argv[4]), (unsigned)atoi(argv[5]));
     return 2;
